@@ -3640,6 +3640,13 @@ class GraphicObject:
         transform required preserve equivalency.
         """
         self.stroke_width = self.implicit_stroke_width
+        if (
+            hasattr(self, "values")
+            and SVG_ATTR_VECTOR_EFFECT in self.values
+            and "viewport_transform" in self.values
+        ):
+            # The viewport scale of a non-scaling stroke is realized now, it must not be applied again.
+            self.values["viewport_transform"] = ""
         return self
 
     @property
